@@ -1,0 +1,51 @@
+// Verification hooks for Cadence.
+//
+// This module only exists when the crate is built with `--cfg cadence_verif`.
+// It lets an external harness install a tracer that is called at a small
+// number of named points inside the library (linearization points of the
+// queuing sink, critical sections of the buffered sinks, atomic operations
+// of the global client holder). The tracer may block: a harness can use it
+// as a cooperative scheduler. Nothing here changes the behaviour of the
+// library when no tracer is installed.
+
+use std::sync::{Arc, RwLock};
+
+/// Callback invoked at every hook point: `(site, object id, a, b)`.
+pub type Tracer = dyn Fn(&'static str, usize, u64, u64) + Send + Sync + 'static;
+
+static TRACER: RwLock<Option<Arc<Tracer>>> = RwLock::new(None);
+
+/// Install (or with `None` remove) the process wide tracer.
+pub fn install(tracer: Option<Arc<Tracer>>) {
+    *TRACER.write().unwrap_or_else(|e| e.into_inner()) = tracer;
+}
+
+/// Report that `site` was reached for object `obj`. The tracer is invoked
+/// without any lock of this module held so it is free to block.
+#[inline]
+pub fn point(site: &'static str, obj: usize, a: u64, b: u64) {
+    let tracer = TRACER.read().unwrap_or_else(|e| e.into_inner()).clone();
+    if let Some(t) = tracer {
+        t(site, obj, a, b);
+    }
+}
+
+/// Reports `enter` when created and `leave` when dropped. Declared right after
+/// a lock guard it brackets exactly the critical section protected by it.
+pub struct Scope {
+    leave: &'static str,
+    obj: usize,
+}
+
+impl Scope {
+    pub fn new(enter: &'static str, leave: &'static str, obj: usize) -> Scope {
+        point(enter, obj, 0, 0);
+        Scope { leave, obj }
+    }
+}
+
+impl Drop for Scope {
+    fn drop(&mut self) {
+        point(self.leave, self.obj, 0, 0);
+    }
+}
